@@ -130,6 +130,9 @@ func runC13(tier string, seed uint64) {
 		s := newSess("c13", "mem", SessOpts{})
 		s.MkBucket(b)
 		keys := []string{"k", "j", "p/q", "p/r", "z"}[:2+rng.Intn(4)]
+		if i%4 == 2 {
+			keys = append(keys, "a+b", "a b", "r%20s", "r s") // markers are keys, byte for byte
+		}
 		if i%4 == 1 {
 			keys = append(keys, "m"+strings.Repeat("L", 1023)) // a key of the maximum length: it is a legal key marker too
 		}
